@@ -1289,7 +1289,7 @@ func nonEmptyTestOf(l lit, s ssa.Value) bool {
 
 var rFuncName = &Rule{
 	Name: "R-FUNCNAME",
-	Doc: "withstack.functionName splits the runtime's function name into package and function without losing or misplacing anything: (1) the two results are name[:idx] and name[idx+1:] of the parameter ITSELF for one and the same idx (the split is a partition - nothing is cut off before or after), and (2) idx is not simply strings.LastIndex(name, \".\") of the whole name: the runtime prints the type arguments of instantiated generic functions as \"[...]\", so the last period of pkg.Map[...] lies inside the argument list (the function would be reported as \"]\")",
+	Doc:  "withstack.functionName splits the runtime's function name into package and function without losing or misplacing anything: (1) the two results are name[:idx] and name[idx+1:] of the parameter ITSELF for one and the same idx (the split is a partition - nothing is cut off before or after), and (2) idx is not simply strings.LastIndex(name, \".\") of the whole name: the runtime prints the type arguments of instantiated generic functions as \"[...]\", so the last period of pkg.Map[...] lies inside the argument list (the function would be reported as \"]\")",
 	Run: func(c *core.Ctx) {
 		fn := c.P.Func("withstack", "functionName")
 		if fn == nil {
@@ -1356,7 +1356,7 @@ func isStringType(t types.Type) bool {
 
 var rRegistryKey = &Rule{
 	Name: "R-REGISTRY-KEY",
-	Doc: "the encoder/decoder registries are consulted under the key they are filled with: GetTypeKey(x), i.e. the (migrated) FAMILY name. Every lookup in a package-level map keyed by errbase.TypeKey inside errbase's encode/decode paths uses the FamilyName member of the type mark (result #2 of getTypeDetails on the sending side, Details.ErrorTypeMark.FamilyName on the receiving side) - never OriginalTypeName, which differs from the family name exactly for types renamed with RegisterTypeMigration (their registered encoder would be skipped and they would travel without payload)",
+	Doc:  "the encoder/decoder registries are consulted under the key they are filled with: GetTypeKey(x), i.e. the (migrated) FAMILY name. Every lookup in a package-level map keyed by errbase.TypeKey inside errbase's encode/decode paths uses the FamilyName member of the type mark (result #2 of getTypeDetails on the sending side, Details.ErrorTypeMark.FamilyName on the receiving side) - never OriginalTypeName, which differs from the family name exactly for types renamed with RegisterTypeMigration (their registered encoder would be skipped and they would travel without payload)",
 	Run: func(c *core.Ctx) {
 		p := c.P
 		n := 0
@@ -1464,7 +1464,7 @@ var rRegistryKey = &Rule{
 
 var rStateFlags = &Rule{
 	Name: "R-STATE-FLAGS",
-	Doc: "the formatting state reports the caller's flags: errbase.state embeds the fmt.State of the original Format call and is (a) handed as fmt.State to foreign Format methods and (b) the source from which finishDisplay rebuilds the verb (%q, %x, width, precision, flags) applied to the collected text. Its Flag / Width / Precision methods are therefore the promoted ones of the embedded fmt.State, or pure forwarders to them - an override that answers differently for some flag changes what %+q, %-20q, %#x … print relative to fmt's rendering of Error()",
+	Doc:  "the formatting state reports the caller's flags: errbase.state embeds the fmt.State of the original Format call and is (a) handed as fmt.State to foreign Format methods and (b) the source from which finishDisplay rebuilds the verb (%q, %x, width, precision, flags) applied to the collected text. Its Flag / Width / Precision methods are therefore the promoted ones of the embedded fmt.State, or pure forwarders to them - an override that answers differently for some flag changes what %+q, %-20q, %#x … print relative to fmt's rendering of Error()",
 	Run: func(c *core.Ctx) {
 		p := c.P
 		st := p.Named("errbase", "state")
